@@ -48,6 +48,21 @@ What is enumerated (DESIGN.md section 7, C17; sensitivity classes of section 6):
                watcher); oracle: the copy equals the original at the copy point; what the original still delivers
                when the context ends reaches the original only; afterwards the copy behaves like the never-copied
                object after the context -- the calls still pending at the copy point may or may not be made on it
+  watcher callbacks of every callable shape x watcher precedence  class Wat(Plain): parameters p, q, acc; depends
+               methods (precedence -1) on p, on q and on (p, q) with order-sensitive effects on acc; the operation
+               `w:<shape>.<effect>@<precedence>:<parameters>` registers a value watcher with param.watch on the instance:
+               shape in {meth (bound method of the instance), pbound (functools.partial around a bound method of the
+               instance), pfunc (partial around a module-level function), lam (lambda closing over the instance;
+               copy.deepcopy only -- not picklable), other (bound method of another, plain object whose method is named
+               like one of the instance's), othersub (bound method of the attached Parameterized sub-object), cobj
+               (callable object), cobjown (callable object that holds the instance and acts on it)} x effect {add1, mul2}
+               (acc -> acc + 1 / 2 acc: the combined effect and the trace depend on the dispatch order) x precedence
+               {0, 1, 2} x parameters {p, q, (p, q) as ONE watcher}; post alphabet {setp, setq, upd2 / updqp (one
+               param.update of p and q, in both orders), batch2, trigp, and two watchers registered after the copy};
+               families: shapes (each shape and each pair of shapes at equal precedence), precedence (all pairs and
+               triples of bound-method watchers over effect x precedence x parameters: dispatch order decided by
+               precedence against registration order, ties by registration order, depends methods first), shapes x
+               precedence (shape A at precedence 2 registered before shape B at precedence 1)
   x copy mechanism {copy.deepcopy, pickle protocol 2, 3, 4, 5}
   x post-history applied afterwards, first to the copy and then to the original, over
                {set, mut, pedit, pmut, attach, subset, attr, const (assign the constant), watch}.
@@ -86,6 +101,8 @@ MULTI_POST = tuple(K.MULTI_POST_OPS)
 CTX_PRE = tuple(K.CTX_PRE_OPS)
 CTX_POST = tuple(K.CTX_POST_OPS)
 NK = len(K.VALUE_KINDS)
+WAT_POST = tuple(K.WAT_POST)
+W = K.w_op
 
 
 def pre_alphabet(cname):
@@ -103,6 +120,8 @@ def post_alphabet(cname):
         return MULTI_POST
     if cname.startswith("Multi@"):
         return CTX_POST
+    if cname == "Wat":
+        return WAT_POST
     return SLOT_POST if cname in SLOT_CLASSES else POST
 
 
@@ -376,6 +395,92 @@ def plan_new_families(tier, seed):
     return tasks, True, bound
 
 
+def _wat_mechs(pre, mechs):
+    """a lambda is not picklable: histories that register one are copied with copy.deepcopy only"""
+    for op in pre:
+        if op.startswith("w:") and K.parse_w(op[2:])[0] in K.UNPICKLABLE_SHAPES:
+            return ("deepcopy",)
+    return mechs
+
+
+def plan_wat(tier, seed):
+    """watcher callbacks of every callable shape x watcher precedence (class Wat)"""
+    shapes = K.W_SHAPES
+    ops_shape = [W(s_, "add1", 0, "p") for s_ in shapes] + [W(s_, "mul2", 0, "pq") for s_ in shapes]
+    ops_prec = [W("meth", e, pr, ps) for e in K.W_EFFECTS for pr in K.W_PRECS for ps in K.W_PARAMS]
+    mixed = [(W(a, "mul2", 2, pa), W(b, "add1", 1, "p")) for a in shapes for b in shapes for pa in ("p", "pq")]
+    pairs_shape = [h for h in histories(ops_shape, 2) if len(h) == 2]
+    pairs_prec = [h for h in histories(ops_prec, 2) if len(h) == 2]
+    # triples: the watchers of p and of (p, q) (three-way orders; the q-only watchers are covered by the pairs)
+    ops_prec3 = [op for op in ops_prec if not op.endswith(":q")]
+    triples_prec = [h for h in histories(ops_prec3, 3) if len(h) == 3]
+    tasks = []
+
+    def add(pre, maxpost, mechs):
+        tasks.append(("Wat", tuple(pre), maxpost, _wat_mechs(pre, mechs)))
+    if tier == "thorough":
+        for pre in histories(ops_shape, 1):
+            add(pre, 2, MECHS7)
+        for pre in pairs_shape:
+            add(pre, 1, MECHS3)
+        for op in ops_shape:
+            add(("set", op), 1, MECHS3)
+            add(("attach", op), 1, MECHS3)
+        for pre in histories(ops_prec, 1):
+            add(pre, 2, MECHS7)
+        for pre in pairs_prec:
+            add(pre, 2, ("deepcopy",))
+            add(pre, 1, MECHS3)
+        for i, pre in enumerate(triples_prec):
+            add(pre, 1, ("deepcopy",) if i % 2 else ("pickle5",))
+        for pre in mixed:
+            add(pre, 1, MECHS3)
+        bound = ("watcher callbacks x precedence: class Wat, operation w:<shape>.<effect>@<precedence>:<parameters> over "
+                 "%d shapes x 2 effects x 3 precedences x 3 parameter sets; shapes: {each of %d (shape, parameters) "
+                 "operations alone x post-histories <= 2 x {deepcopy, pickle 0-5}; every pair x post-histories <= 1 x "
+                 "{deepcopy, pickle 2, 5}} (lambda: deepcopy only), each also after set / attach x {deepcopy, pickle 2, "
+                 "5}; precedence: bound-method watchers over %d (effect, precedence, parameters) operations: "
+                 "{pre-histories <= 1 x post-histories <= 2 x {deepcopy, pickle 0-5}; all %d pairs x {post-histories "
+                 "<= 2 x deepcopy; post-histories <= 1 x {deepcopy, pickle 2, 5}}; all %d triples of the watchers of p "
+                 "and of (p, q) x post-histories <= 1 x one mechanism (alternating)}; shapes x precedence: %d pairs "
+                 "(shape A at precedence 2 on p / (p, q) "
+                 "registered before shape B at precedence 1 on p) x post-histories <= 1 x {deepcopy, pickle 2, 5}; post "
+                 "alphabet of %d operations" % (len(shapes), len(ops_shape), len(ops_prec), len(pairs_prec),
+                                                 len(triples_prec), len(mixed), len(WAT_POST)))
+        return tasks, False, bound
+    for pre in histories(ops_shape, 1):
+        add(pre, 1, MECHS7)
+    for i, pre in enumerate(pairs_shape):
+        if i % 16 == seed % 16:
+            add(pre, 1, MECHS2)
+    add((), 2, MECHS2)
+    for pre in histories(ops_prec, 1):
+        add(pre, 1, MECHS2)
+    for i, pre in enumerate(pairs_prec):
+        # registration order against precedence order, or a tie: always; both orders agree: a seed-chosen third
+        if K.parse_w(pre[0][2:])[2] >= K.parse_w(pre[1][2:])[2] or i % 3 == seed % 3:
+            add(pre, 1, ("deepcopy",) if (i + seed) % 2 else ("pickle5",))
+    for i, pre in enumerate(triples_prec):
+        if i % 64 == seed % 64:
+            add(pre, 1, ("deepcopy",) if (i // 64 + seed) % 2 else ("pickle5",))
+    for i, pre in enumerate(mixed):
+        if i % 8 == seed % 8:
+            add(pre, 1, MECHS2)
+    bound = ("watcher callbacks x precedence: class Wat, operation w:<shape>.<effect>@<precedence>:<parameters> over %d "
+             "shapes x 2 effects x 3 precedences x 3 parameter sets; shapes: each of %d (shape, parameters) operations "
+             "alone x post-histories <= 1 x {deepcopy, pickle 0-5} (lambda: deepcopy only), a seed-chosen sixteenth of "
+             "the pairs x post-histories <= 1 x {deepcopy, pickle5}; precedence: bound-method watchers over %d (effect, "
+             "precedence, parameters) operations: pre-histories <= 1 x post-histories <= 1 x {deepcopy, pickle5}, "
+             "the %d pairs (all whose registration order is not the precedence order or that tie, a seed-chosen third of "
+             "the others) x post-histories <= 1 x one mechanism (alternating), a seed-chosen 64th of the %d triples "
+             "(watchers of p and of (p, q)) x post-histories <= 1 x one mechanism, no pre-history x post-histories <= 2 x {deepcopy, pickle5}; shapes x "
+             "precedence: a seed-chosen eighth of %d pairs (shape A at precedence 2 registered before shape B at "
+             "precedence 1) x post-histories <= 1 x {deepcopy, pickle5}; post alphabet of %d operations"
+             % (len(shapes), len(ops_shape), len(ops_prec), len(pairs_prec), len(triples_prec), len(mixed),
+                len(WAT_POST)))
+    return tasks, True, bound
+
+
 def plan(tier, seed):
     """-> list of tasks (cname, pre, maxpost, mechs), sampled flag, bound text"""
     tasks = []
@@ -424,6 +529,10 @@ def plan(tier, seed):
     tasks += t2
     sampled = sampled or s2
     bound += "; " + b2
+    t3, s3, b3 = plan_wat(tier, seed)
+    tasks += t3
+    sampled = sampled or s3
+    bound += "; " + b3
     # a task over post-histories <= 2 covers those <= 1: never run a (class, pre, mechanism, post) twice
     best = {}
     for cname, pre, maxpost, mechs in tasks:
@@ -448,7 +557,9 @@ def _run(tier, seed):
               "and by the Parameterized subclass itself, next to __dict__ attributes); Attr (ordinary attributes: "
               "names that look like param's bookkeeping but are not x value kinds); Multi (dependencies / watchers on "
               "several parameters x updates of several parameters at once; copies taken in the middle of a dispatch: "
-              "inside a batch, inside discard_events, inside a watcher callback); "
+              "inside a batch, inside discard_events, inside a watcher callback); Wat (value watchers registered "
+              "with param.watch on the instance: every callable shape x explicit precedences, next to depends methods "
+              "on the same parameters, all with order-sensitive effects); "
               "one case = (model class, pre-history, copy mechanism, post-history); the post-history is applied to "
               "the copy and then to the original and both objects are compared after each phase with an object "
               "that was never copied (values, Parameter attributes, ordinary attributes, invocation logs, operation "
@@ -483,6 +594,7 @@ def _run(tier, seed):
     # ---- minimal witnesses: shortest failing (pre, post) of a class; longer ones are folded into it
     reported = []          # (clause, cname, dpath, side, pre, post, witness)
     folded_attr = {}
+    folded_wat = {}
     order = sorted(groups, key=lambda g: (g[0], g[1], len(g[4]) + len(g[5]), len(g[4]), g[4], g[5], g[2], g[3]))
     for g in order:
         clause, cname, dpath, side, pre, post = g
@@ -509,6 +621,15 @@ def _run(tier, seed):
                     B.violation(clause, mine[0][6])
                 folded_attr[clause] = folded_attr.get(clause, 0) + 1
                 continue
+        if cname == "Wat":
+            # cap: one defect of the watcher re-binding shows up under many (shape, effect, precedence, parameters)
+            # combinations; at most 6 witnesses (the shortest histories) per clause and kind of difference
+            mine = [r for r in reported if (r[0], r[1], r[2]) == (clause, cname, dpath)]
+            if len(mine) >= 6:
+                for _ in mechs:
+                    B.violation(clause, mine[0][6])
+                folded_wat[(clause, dpath)] = folded_wat.get((clause, dpath), 0) + 1
+                continue
         cls_, _, ctx = cname.partition("@")
         cls_s = cls_ + (" ctx=" + ctx if ctx else "")
         if clause == "C17/copy/succeeds":
@@ -525,6 +646,9 @@ def _run(tier, seed):
     for cl, n in sorted(folded_attr.items()):
         B.note("%s: %d further failing (attribute name, history) classes of the ordinary-attribute family folded "
                "into the first witness (cap 8 per clause)" % (cl, n))
+    for (cl, dp), n in sorted(folded_wat.items()):
+        B.note("%s diff=%s: %d further failing histories of the watcher shape / precedence family folded into the "
+               "first witness (cap 6 per clause and kind of difference)" % (cl, dp, n))
     if unclean:
         B.note("%d tasks left the model classes' own Parameters changed (per-instance state leaked into the class); "
                "the differential oracle stays self-consistent but see C12" % unclean)
